@@ -97,7 +97,7 @@ def dedupe_runs(rows, names):
             continue          # the whole run is a prefix of an earlier one
         out.append(run[0])
         if k > 0:
-            post, signs, dec, catch = {}, {}, {}, {}
+            post, signs, dec, catch, claims = {}, {}, {}, {}, {}
             for e in run[1:k + 1]:
                 n = e.get("n")
                 if e["ev"] == "Decision":
@@ -112,14 +112,21 @@ def dedupe_runs(rows, names):
                         m["r"] not in pre_tracked and m["r"] in e["post"]["tracked"]:
                     c = catch.setdefault(n, {})
                     c[e["peer"]] = c.get(e["peer"], 0) + 1
+                if e["ev"] == "Deliver" and m.get("t") in ("claim_prevote", "claim_precommit") and m["r"] in pre_tracked:
+                    cl = claims.setdefault(n, {}).setdefault((m["t"], m["r"]), [])
+                    if not any(c[0] == e["peer"] for c in cl):
+                        cl.append([e["peer"], m["v"]])
                 if e["post"]["height"] != 1:
                     catch[n] = {}
+                    claims[n] = {}
                 post[n] = e["post"]
                 signs.setdefault(n, []).extend(x for x in e.get("signs", []) if x["ok"])
             for n in sorted(post):
                 out.append({"ev": "Set", "run": run[0]["run"], "n": n, "post": post[n], "signs": signs.get(n, []),
                             "dec": dec.get(n, "nil"),
-                            "catchup": {v: catch.get(n, {}).get(v, 0) for v in names}})
+                            "catchup": {v: catch.get(n, {}).get(v, 0) for v in names},
+                            "pmv": [claims.get(n, {}).get(("claim_prevote", r), []) for r in range(len(post[n]["pv"]))],
+                            "pmc": [claims.get(n, {}).get(("claim_precommit", r), []) for r in range(len(post[n]["pc"]))]})
             removed += k - len(post)
         out.extend(run[k + 1:])
     return out, removed
